@@ -16,6 +16,7 @@ import (
 	crand "crypto/rand"
 	"errors"
 	"fmt"
+	"math/bits"
 	"sort"
 	"strings"
 	"testing"
@@ -231,9 +232,43 @@ func (c *c19Ctx) checkStateInner(bf *Bitfield, ref map[hotstuff.ID]struct{}, ste
 			break
 		}
 	}
+	// ids that agree with a member in their low bits (x + 2^k, k = 3..31) and the extreme ids
+	if bad == 0 {
+		for i, x := range want {
+			if i >= 3 && i < len(want)-2 {
+				continue // the three smallest and two largest members are enough
+			}
+			for k := uint(3); k < 32 && bad == 0; k++ {
+				y := uint64(x) + 1<<k
+				if y >= 1<<32 {
+					break
+				}
+				_, in := ref[hotstuff.ID(y)]
+				if bf.Contains(hotstuff.ID(y)) != in {
+					bad = hotstuff.ID(y)
+				}
+			}
+		}
+		for _, y := range []hotstuff.ID{1<<32 - 1, 1<<32 - 8, 1 << 31, 1<<31 + 1} {
+			_, in := ref[y]
+			if bad == 0 && bf.Contains(y) != in {
+				bad = y
+			}
+		}
+	}
 	if bad != 0 {
 		_, in := ref[bad]
 		v.Oracle(false, "bitfield.contains:differs-from-set", fmt.Sprintf("Contains(%d)=%v but membership in %v is %v", bad, !in, want, in), c.input(step))
+	} else {
+		v.Oracle(true, "", "", nil)
+	}
+	// firstParticipant (bls12.go): RangeWhile that stops at once = the smallest member, 0 if none
+	first := hotstuff.ID(0)
+	if len(want) > 0 {
+		first = want[0]
+	}
+	if fp := firstParticipant(bf); fp != first {
+		v.Oracle(false, "bitfield.range:early-exit-not-a-prefix", fmt.Sprintf("firstParticipant=%d, the set is %v", fp, want), c.input(step))
 	} else {
 		v.Oracle(true, "", "", nil)
 	}
@@ -254,6 +289,12 @@ func (c *c19Ctx) run(fullCheck bool) []string {
 	if c.init != nil {
 		c.checkState(&bf, ref, -1) // reconstruction from an arbitrary byte string
 	}
+	// a twin receives the same insertions but none of the queries / rebuilds: queries must not
+	// change what the set is
+	var twin Bitfield
+	if c.init != nil {
+		twin = BitfieldFromBytes(append([]byte{}, c.init...))
+	}
 	obs := make([]string, 0, len(c.ops))
 	for step, o := range c.ops {
 		id := hotstuff.ID(o.ID)
@@ -263,6 +304,7 @@ func (c *c19Ctx) run(fullCheck bool) []string {
 			case "add":
 				bf.Add(id)
 				obs = append(obs, "BUnit")
+				twin.Add(id)
 				if _, dup := ref[id]; dup {
 					v.Count("add_repeated_id")
 				}
@@ -343,6 +385,11 @@ func (c *c19Ctx) run(fullCheck bool) []string {
 		if fullCheck && o.Kind == "add" {
 			c.checkState(&bf, ref, step)
 		}
+	}
+	if len(c.ops) > 0 {
+		same := twin.Len() == bf.Len() && c19EqIDs(c19ForEach(&twin), c19ForEach(&bf)) && string(twin.Bytes()) == string(bf.Bytes())
+		v.Oracle(same, "bitfield.query:changes-the-set", fmt.Sprintf("after the same insertions a field that was also queried has Len %d ids %v, one that was not has Len %d ids %v",
+			bf.Len(), c19ForEach(&bf), twin.Len(), c19ForEach(&twin)), c.input(len(c.ops)-1))
 	}
 	return obs
 }
@@ -469,6 +516,13 @@ func c19Bitfield(v *verifOut) {
 				ops = append(ops, c19Op{Kind: "add", ID: id})
 				last = append(last, id)
 			case r < 65:
+				if len(last) > 0 && v.rng.Intn(5) == 0 { // an id that agrees with an inserted one in its low bits
+					id = last[v.rng.Intn(len(last))] + 1<<uint(3+v.rng.Intn(29))
+					if id >= 1<<32 {
+						id = 1<<32 - 1
+					}
+					v.Count("seq_contains_low_bit_alias")
+				}
 				ops = append(ops, c19Op{Kind: "contains", ID: id})
 			case r < 73:
 				ops = append(ops, c19Op{Kind: "len"})
@@ -543,6 +597,25 @@ func c19Bitfield(v *verifOut) {
 	for t := uint64(0); t <= 67; t++ {
 		c19Emit(v, sB, "boundary", ten, []c19Op{{Kind: "rangebelow", ID: t}}, false, true, true)
 	}
+	// (F) large and sparse ids: around 2^8, 2^15, 2^16 with the kernel; 2^20 and 2^24 oracle only
+	sL := v.Stream("large", "bf_mismatches", 4)
+	for _, base := range []uint64{1 << 8, 1 << 15, 1 << 16, 1 << 20, 1 << 24} {
+		for _, d := range []int64{-8, -1, 0, 1, 2, 8, 9} {
+			id := uint64(int64(base) + d)
+			low := id - base // agrees with id in the low bits
+			if d <= 0 {
+				low = id - base/2
+			}
+			ops := []c19Op{{Kind: "contains", ID: id}, {Kind: "add", ID: id}, {Kind: "contains", ID: id}, {Kind: "contains", ID: low},
+				{Kind: "contains", ID: id + base}, {Kind: "contains", ID: id - 1}, {Kind: "contains", ID: id + 1}, {Kind: "len"}, {Kind: "foreach"},
+				{Kind: "rangecount", K: 1}, {Kind: "add", ID: low}, {Kind: "len"}, {Kind: "foreach"}, {Kind: "rangebelow", ID: id}, {Kind: "rangecount", K: 1},
+				{Kind: "add", ID: id}, {Kind: "rebuild"}, {Kind: "contains", ID: id}, {Kind: "contains", ID: low}, {Kind: "contains", ID: id + 8}, {Kind: "len"}}
+			kernel := base <= 1<<16
+			c19Emit(v, sL, "large", nil, ops, kernel, kernel, true)
+			v.Count(fmt.Sprintf("large_ids_near_2^%d", bits.Len64(base)-1))
+		}
+	}
+
 	// what Go leaves behind after Add(0) on the zero value (recorded, outside the property)
 	{
 		var bf Bitfield
@@ -688,6 +761,66 @@ func c19MargTerm(args []c19Arg) string {
 	return gList(ts)
 }
 
+// snapshot of what a signature value says about its participants (to detect that a later
+// operation changed a value it was only given as input, or a value it returned earlier)
+type c19Snap struct {
+	ids   []hotstuff.ID
+	n     int
+	bytes string
+}
+
+func c19Snapshot(a c19Arg) c19Snap {
+	if a.foreign || a.sig == nil {
+		return c19Snap{}
+	}
+	set := a.sig.Participants()
+	sn := c19Snap{ids: c19ForEach(set), n: set.Len()}
+	if agg, ok := a.sig.(*BLS12AggregateSignature); ok {
+		bf := agg.Bitfield()
+		sn.bytes = string(bf.Bytes())
+	}
+	return sn
+}
+
+func (a c19Snap) equal(b c19Snap) bool {
+	return a.n == b.n && a.bytes == b.bytes && c19EqIDs(a.ids, b.ids)
+}
+
+// r1arg wraps an earlier result as an argument
+func r1arg(q hotstuff.QuorumSignature, parts ...c19Arg) c19Arg {
+	return c19Arg{name: "combine(" + strings.Join(c19ArgNames(parts), ",") + ")", sig: q, signers: c19ForEach(q.Participants())}
+}
+
+// c19Unchanged checks that the values still say what they said when they were created
+func c19Unchanged(v *verifOut, scheme, fingerprint, when string, vals []c19Arg, snaps []c19Snap) {
+	for i, a := range vals {
+		now := c19Snapshot(a)
+		v.Oracle(now.equal(snaps[i]), fingerprint, fmt.Sprintf("%s: %s: %s had participants %v (Len %d), now %v (Len %d)", scheme, when, a.name, snaps[i].ids, snaps[i].n, now.ids, now.n),
+			map[string]any{"scheme": scheme, "value": a.name, "when": when})
+	}
+}
+
+// c19CombineChecked = Combine + the aliasing / repetition oracle: the inputs are left as they
+// were (also when Combine fails part-way), and calling it again gives the same participants
+// without disturbing the first result.
+func c19CombineChecked(v *verifOut, scheme string, base Base, args []c19Arg) (int, hotstuff.QuorumSignature) {
+	before := make([]c19Snap, len(args))
+	for i, a := range args {
+		before[i] = c19Snapshot(a)
+	}
+	res, out := c19Combine(base, args)
+	c19Unchanged(v, scheme, "combine:input-value-changed", "after Combine("+strings.Join(c19ArgNames(args), ",")+")", args, before)
+	if res == c19Ok {
+		first := c19Snapshot(c19Arg{sig: out})
+		res2, out2 := c19Combine(base, args)
+		second := c19Snapshot(c19Arg{sig: out2})
+		in := map[string]any{"scheme": scheme, "args": c19ArgNames(args)}
+		v.Oracle(res2 == c19Ok && second.equal(first), "combine:repeated-call-differs", fmt.Sprintf("%s: the same Combine gave %v (Len %d) and then %v (Len %d)", scheme, first.ids, first.n, second.ids, second.n), in)
+		v.Oracle(c19Snapshot(c19Arg{sig: out}).equal(first), "combine:earlier-result-changed", fmt.Sprintf("%s: the first result %v changed after Combine was called again", scheme, first.ids), in)
+	}
+	return res, out
+}
+
 func c19Schemes(t *testing.T, v *verifOut) {
 	msg := []byte("verif C19")
 	// a foreign QuorumSignature for each scheme
@@ -767,10 +900,114 @@ func c19Schemes(t *testing.T, v *verifOut) {
 		alphabet = append(alphabet, c19Arg{name: "wire[1,1]", sig: wire, signers: c19ForEach(wire.Participants())})
 		alphabet = append(alphabet, c19Arg{name: "foreign(bls)", sig: blsSingles[0], foreign: true})
 
+		// Multi values built through both constructors from arbitrary signer lists (unsorted,
+		// repetitions at any position, ids 0 and 2^32-1), as restored from the wire
+		sigBytes := alphabet[0].sig.ToBytes()
+		build := func(sorted bool, ids []hotstuff.ID) hotstuff.QuorumSignature {
+			if scheme == NameECDSA {
+				ss := make([]*ECDSASignature, len(ids))
+				for i, id := range ids {
+					ss[i] = RestoreECDSASignature(sigBytes, id)
+				}
+				if sorted {
+					return NewMultiSorted(ss...)
+				}
+				return NewMulti(ss...)
+			}
+			ss := make([]*EDDSASignature, len(ids))
+			for i, id := range ids {
+				ss[i] = RestoreEDDSASignature(sigBytes, id)
+			}
+			if sorted {
+				return NewMultiSorted(ss...)
+			}
+			return NewMulti(ss...)
+		}
+		sSet := v.Stream("mset_"+scheme, "mset_mismatches", 400)
+		universe := []hotstuff.ID{0, 1, 2, 3, 8, 9, 255, 256, 257, 300, 65535, 65536, 65537, 1 << 31, 1<<31 + 1, 1<<32 - 2, 1<<32 - 1}
+		msetNo := 0
+		mset := func(sorted bool, ids []hotstuff.ID) {
+			msetNo++
+			given := append([]hotstuff.ID{}, ids...)
+			q := build(sorted, ids)
+			set := q.Participants()
+			got := c19ForEach(set)
+			want := append([]hotstuff.ID{}, given...)
+			if sorted {
+				sort.SliceStable(want, func(i, j int) bool { return want[i] < want[j] })
+			}
+			in := map[string]any{"scheme": scheme, "constructor": map[bool]string{false: "NewMulti", true: "NewMultiSorted"}[sorted], "signers": given}
+			v.Oracle(c19EqIDs(got, want), "multi.iter:not-the-signers-given", fmt.Sprintf("%s: ForEach visited %v, the signatures given were %v (sorted=%v)", scheme, got, given, sorted), in)
+			v.Oracle(set.Len() == len(given), "multi.len:not-number-of-signatures", fmt.Sprintf("%s: Len()=%d for %d signatures", scheme, set.Len(), len(given)), in)
+			member := map[hotstuff.ID]bool{}
+			for _, id := range given {
+				member[id] = true
+			}
+			ps := []string{}
+			probeIDs := append(append([]hotstuff.ID{}, universe...), given...)
+			for _, id := range given {
+				probeIDs = append(probeIDs, id+1, id-1, id+1<<16, id+1<<31)
+			}
+			for _, id := range probeIDs {
+				r := set.Contains(id)
+				v.Oracle(r == member[id], "multi.contains:differs-from-iteration", fmt.Sprintf("%s: Contains(%d)=%v on the signer list %v", scheme, id, r, got), in)
+				ps = append(ps, fmt.Sprintf("(%s, %s)", gN(uint64(id)), gBool(r)))
+			}
+			k := msetNo % 5
+			rk := c19RangeCount(set, k)
+			n := k
+			if n < 1 {
+				n = 1
+			}
+			if n > len(got) {
+				n = len(got)
+			}
+			v.Oracle(c19EqIDs(rk, got[:n]), "multi.range:early-exit-not-a-prefix", fmt.Sprintf("%s: RangeWhile stopping after %d calls visited %v of %v", scheme, k, rk, got), in)
+			v.Seen(fmt.Sprintf("%s|mset|%v|%v", scheme, sorted, given), len(given) >= 2, in)
+			v.Case(sSet, fmt.Sprintf("(%s, %s, %s, %s, %s, (%s, %s))", gBool(sorted), c19IDs(given), c19IDs(got), gNat(set.Len()), gList(ps), gNat(k), c19IDs(rk)), in)
+			v.Count(fmt.Sprintf("%s_mset_len_%d", scheme, len(given)))
+		}
+		small := []hotstuff.ID{0, 1, 2, 3, 300, 1<<32 - 1}
+		for _, sorted := range []bool{false, true} {
+			mset(sorted, nil)
+			for _, a := range small {
+				mset(sorted, []hotstuff.ID{a})
+				for _, b := range small {
+					mset(sorted, []hotstuff.ID{a, b})
+					for _, c := range small {
+						mset(sorted, []hotstuff.ID{a, b, c})
+					}
+				}
+			}
+			for i := 0; i < v.Pick(150, 2000); i++ {
+				ids := make([]hotstuff.ID, v.rng.Intn(10))
+				for j := range ids {
+					ids[j] = universe[v.rng.Intn(len(universe))]
+					if j > 0 && v.rng.Intn(4) == 0 {
+						ids[j] = ids[v.rng.Intn(j)] // a repetition
+					}
+				}
+				mset(sorted, ids)
+			}
+		}
+		// some of them also as arguments of Combine, in every position
+		firstExtra := len(alphabet)
+		for _, e := range []struct {
+			sorted bool
+			ids    []hotstuff.ID
+		}{{false, []hotstuff.ID{3, 1}}, {false, []hotstuff.ID{2, 9, 2}}, {true, []hotstuff.ID{9, 1, 3}}, {false, []hotstuff.ID{0}}, {false, []hotstuff.ID{1<<32 - 1, 8}}} {
+			q := build(e.sorted, e.ids)
+			name := fmt.Sprintf("wire%v", e.ids)
+			if e.sorted {
+				name = fmt.Sprintf("sorted%v", e.ids)
+			}
+			alphabet = append(alphabet, c19Arg{name: name, sig: q, signers: c19ForEach(q.Participants())})
+		}
+
 		caseNo := 0
 		try := func(stream string, args []c19Arg) (int, hotstuff.QuorumSignature) {
 			caseNo++
-			res, out := c19Combine(bases[caseNo%len(bases)], args)
+			res, out := c19CombineChecked(v, scheme, bases[caseNo%len(bases)], args)
 			v.Count(scheme + "_combine_" + c19ResNames[res])
 			v.Count(fmt.Sprintf("%s_combine_args_%d", scheme, len(args)))
 			var resTerm, probes, rk string
@@ -783,7 +1020,7 @@ func c19Schemes(t *testing.T, v *verifOut) {
 				resTerm = "(COk " + c19IDs(ids) + ")"
 				l = set.Len()
 				ps := []string{}
-				for _, id := range []hotstuff.ID{1, 2, 3, 4, 8, 9, 10, 256, 300, 301} {
+				for _, id := range []hotstuff.ID{0, 1, 2, 3, 4, 8, 9, 10, 256, 300, 301, 1<<32 - 1} {
 					ps = append(ps, fmt.Sprintf("(%s, %s)", gN(uint64(id)), gBool(set.Contains(id))))
 				}
 				probes = gList(ps)
@@ -804,11 +1041,64 @@ func c19Schemes(t *testing.T, v *verifOut) {
 			try("exhaustive", []c19Arg{alphabet[a]})
 			for b := 0; b < n; b++ {
 				try("exhaustive", []c19Arg{alphabet[a], alphabet[b]})
-				for c := 0; c < n; c++ {
+				if a >= firstExtra || b >= firstExtra {
+					continue
+				}
+				for c := 0; c < firstExtra; c++ {
 					try("exhaustive", []c19Arg{alphabet[a], alphabet[b], alphabet[c]})
 				}
 			}
 		}
+		for e := firstExtra; e < n; e++ { // an unsorted / repeating / extreme-id list in each position among single signatures
+			for x := 0; x < 6; x++ {
+				for y := 0; y < 6; y++ {
+					try("exhaustive", []c19Arg{alphabet[e], alphabet[x], alphabet[y]})
+					try("exhaustive", []c19Arg{alphabet[x], alphabet[e], alphabet[y]})
+					try("exhaustive", []c19Arg{alphabet[x], alphabet[y], alphabet[e]})
+				}
+			}
+		}
+		// aliasing between results: two different extensions of the same earlier result must not
+		// disturb each other or the earlier result
+		alphaSnaps := make([]c19Snap, len(alphabet))
+		for i, a := range alphabet {
+			alphaSnaps[i] = c19Snapshot(a)
+		}
+		for _, p := range alphabet {
+			if p.foreign {
+				continue
+			}
+			var free []c19Arg
+			for i := 0; i < 6; i++ {
+				clash := false
+				for _, id := range p.signers {
+					if id == c19SignerIDs[i] {
+						clash = true
+					}
+				}
+				if !clash {
+					free = append(free, alphabet[i])
+				}
+			}
+			for i := 0; i+1 < len(free); i++ {
+				x, y := free[i], free[i+1]
+				res1, r1 := try("aliasing", []c19Arg{p, x})
+				var s1 c19Snap
+				if res1 == c19Ok {
+					s1 = c19Snapshot(c19Arg{sig: r1})
+				}
+				res2, r2 := try("aliasing", []c19Arg{p, y})
+				if res1 == c19Ok && res2 == c19Ok {
+					c19Unchanged(v, scheme, "combine:earlier-result-changed", "after Combine("+p.name+","+y.name+")", []c19Arg{{name: "Combine(" + p.name + "," + x.name + ")", sig: r1}}, []c19Snap{s1})
+					res3, r3 := try("aliasing", []c19Arg{r1arg(r1, p, x), y})
+					if res3 == c19Ok {
+						c19Unchanged(v, scheme, "combine:earlier-result-changed", "after extending it", []c19Arg{{name: "Combine(" + p.name + "," + x.name + ")", sig: r1}, {name: "Combine(" + p.name + "," + y.name + ")", sig: r2}}, []c19Snap{s1, c19Snapshot(c19Arg{sig: r2})})
+						_ = r3
+					}
+				}
+			}
+		}
+		c19Unchanged(v, scheme, "combine:earlier-result-changed", "after all combinations", alphabet, alphaSnaps)
 		// every subset of the six single signatures, in ascending and in a shuffled order
 		for mask := 0; mask < 64; mask++ {
 			var args []c19Arg
@@ -841,6 +1131,12 @@ func c19Schemes(t *testing.T, v *verifOut) {
 			res, out := try("random", args)
 			if res == c19Ok && len(pool) < 60 {
 				pool = append(pool, c19Arg{name: "combine(" + strings.Join(c19ArgNames(args), ",") + ")", sig: out, signers: c19ForEach(out.Participants())})
+			}
+			if i%25 == 24 || i == nRand-1 { // values produced earlier still say what they said
+				for _, p := range pool {
+					v.Oracle(p.foreign || c19EqIDs(c19ForEach(p.sig.Participants()), p.signers), "combine:earlier-result-changed",
+						fmt.Sprintf("%s: %s had signers %v, now %v", scheme, p.name, p.signers, c19ForEach(p.sig.Participants())), map[string]any{"scheme": scheme, "value": p.name})
+				}
 			}
 		}
 	}
@@ -886,7 +1182,7 @@ func c19Schemes(t *testing.T, v *verifOut) {
 		caseNo := 0
 		try := func(stream string, args []c19Arg) (int, hotstuff.QuorumSignature) {
 			caseNo++
-			res, out := c19Combine(blsBases[caseNo%len(blsBases)], args)
+			res, out := c19CombineChecked(v, scheme, blsBases[caseNo%len(blsBases)], args)
 			v.Count(scheme + "_combine_" + c19ResNames[res])
 			v.Count(fmt.Sprintf("%s_combine_args_%d", scheme, len(args)))
 			resTerm := c19ResNames[res]
@@ -898,6 +1194,27 @@ func c19Schemes(t *testing.T, v *verifOut) {
 				v.Oracle(bf.Len() == pop, "combine:len-not-number-of-distinct-signers", fmt.Sprintf("bls12: Len()=%d but %d bits are set in %v", bf.Len(), pop, bf.Bytes()),
 					map[string]any{"scheme": scheme, "args": c19ArgNames(args)})
 				resTerm = fmt.Sprintf("(COk (%s, %s, %s))", c19Bytes(bf.Bytes()), gNat(bf.Len()), c19IDs(c19ForEach(&bf)))
+				// the two accessors and a second call agree; early exit is a prefix
+				ids := c19ForEach(&bf)
+				in := map[string]any{"scheme": scheme, "args": c19ArgNames(args)}
+				p1, p2 := out.Participants(), out.Participants()
+				v.Oracle(c19EqIDs(c19ForEach(p1), ids) && c19EqIDs(c19ForEach(p2), ids) && p1.Len() == bf.Len() && p2.Len() == bf.Len(), "bls.participants:accessors-disagree",
+					fmt.Sprintf("bls12: Bitfield() says %v (Len %d), Participants() says %v (Len %d)", ids, bf.Len(), c19ForEach(p1), p1.Len()), in)
+				k := caseNo % 5
+				rk := c19RangeCount(out.Participants(), k)
+				n := k
+				if n < 1 {
+					n = 1
+				}
+				if n > len(ids) {
+					n = len(ids)
+				}
+				first := hotstuff.ID(0)
+				if len(ids) > 0 {
+					first = ids[0]
+				}
+				v.Oracle(c19EqIDs(rk, ids[:n]) && firstParticipant(out.Participants()) == first, "bitfield.range:early-exit-not-a-prefix",
+					fmt.Sprintf("bls12: RangeWhile stopping after %d calls visited %v of %v; firstParticipant=%d", k, rk, ids, firstParticipant(out.Participants())), in)
 			}
 			ts := make([]string, len(args))
 			for i, a := range args {
@@ -963,6 +1280,13 @@ func c19Schemes(t *testing.T, v *verifOut) {
 			res, out := try("random", args)
 			if res == c19Ok && len(pool) < 60 {
 				pool = append(pool, c19Arg{name: "combine(" + strings.Join(c19ArgNames(args), ",") + ")", sig: out, signers: c19ForEach(out.Participants())})
+			}
+			if i%25 == 24 || i == nRand-1 {
+				for _, p := range pool {
+					ok := p.foreign || (c19EqIDs(c19ForEach(p.sig.Participants()), p.signers) && p.sig.Participants().Len() == len(p.signers))
+					v.Oracle(ok, "combine:earlier-result-changed", fmt.Sprintf("%s: %s had participants %v, now %v (Len %d)", scheme, p.name, p.signers, c19ForEach(p.sig.Participants()), p.sig.Participants().Len()),
+						map[string]any{"scheme": scheme, "value": p.name})
+				}
 			}
 		}
 	}
